@@ -23,6 +23,7 @@ package main
 
 import (
 	"bytes"
+	"crypto/sha256"
 	"fmt"
 	"math/big"
 	"strconv"
@@ -558,7 +559,7 @@ func runC06(r *Runner) string {
 			r.Do(op, []string{hx(k)}, "pub-edge", true, "edge scalar")
 		}
 	}
-	nPub := r.N(150, 4000)
+	nPub := r.N(360, 4000)
 	for i := 0; i < nPub; i++ {
 		k := r.eccScalar(i)
 		op := []string{"pub.c", "pub.u", "pub.x"}[i%3]
@@ -700,7 +701,7 @@ func runC06(r *Runner) string {
 	r.Do("pub.uncompress", []string{hx(zero32)}, "compress-zero", true, "x = 0")
 
 	// ---- ECDH --------------------------------------------------------------------------------
-	nDH := r.N(60, 1500)
+	nDH := r.N(150, 1500)
 	for i := 0; i < nDH; i++ {
 		a, b := r.eccScalar(i), r.eccScalar(i/6)
 		r.Do("ecdh.sym", []string{hx(a), hx(b)}, "ecdh-sym", true, "pair")
@@ -778,7 +779,7 @@ func runC06(r *Runner) string {
 		r.Do("sum.pub", []string{eccListStr(keys)}, tag, true, tag)
 	}
 	sumPub(nil, "sumpub-empty")
-	nSP := r.N(60, 1500)
+	nSP := r.N(150, 1500)
 	for i := 0; i < nSP; i++ {
 		cnt := 1 + r.rng.Intn(3)
 		keys := make([][]byte, cnt)
@@ -872,11 +873,20 @@ func (r *Runner) eccSetByte(b []byte) []byte {
 func (r *Runner) eccVerify(pub, h []byte, rr, ss *big.Int, tag string, valid bool) {
 	args := []string{hx(pub), hx(h), hx(rr.Bytes()), hx(ss.Bytes())}
 	ans, _ := eval("ecdsa.verify", args)
+	if !valid && strings.Contains(tag, "-key") && new(big.Int).Mod(new(big.Int).SetBytes(h), eccN).Sign() == 0 {
+		// z ≡ 0: the signature is also valid for −P, which a key mutation may hit (02 <-> 03); no expectation
+		r.Do("ecdsa.verify", args, tag, true, tag)
+		r.Do("ecdsa.verify.spec", args, tag+"-spec", false, "")
+		return
+	}
 	nt := valid || ans == "ok false"
 	r.Do("ecdsa.verify", args, tag, nt, tag)
 	r.Do("ecdsa.verify.spec", args, tag+"-spec", false, "")
 	if valid && ans != "ok true" {
 		r.addFailure(Failure{Kind: "property", Op: "ecdsa.verify", Args: args, Go: ans, Detail: "an honestly produced signature (or its high-S twin) is not accepted", Tag: tag}, false)
+	}
+	if !valid && ans == "ok true" {
+		r.addFailure(Failure{Kind: "property", Op: "ecdsa.verify", Args: args, Go: ans, Detail: "a triple that is invalid by construction (" + tag + ") is accepted", Tag: tag}, false)
 	}
 }
 
@@ -889,6 +899,43 @@ func (r *Runner) eccSchnorrVerify(pub, m, sig []byte, tag string, valid bool) {
 	if valid && ans != "ok true" {
 		r.addFailure(Failure{Kind: "property", Op: "schnorr.verify", Args: args, Go: ans, Detail: "an honestly produced Schnorr signature is not accepted", Tag: tag}, false)
 	}
+	if !valid && ans == "ok true" {
+		r.addFailure(Failure{Kind: "property", Op: "schnorr.verify", Args: args, Go: ans, Detail: "a triple that is invalid by construction (" + tag + ") is accepted", Tag: tag}, false)
+	}
+}
+
+// BIP340 tagged hash, written from the BIP text (crypto/sha256 only)
+func eccTagged(tag string, chunks ...[]byte) []byte {
+	th := sha256.Sum256([]byte(tag))
+	h := sha256.New()
+	h.Write(th[:])
+	h.Write(th[:])
+	for _, c := range chunks {
+		h.Write(c)
+	}
+	return h.Sum(nil)
+}
+
+// eccSchnorrOddR signs like BIP340 but with a nonce whose point R has ODD y (and without negating
+// it): s·G − e·P = R, so only the "R has even y" test of the verifier rejects it.
+func (r *Runner) eccSchnorrOddR(k, m []byte) []byte {
+	d := new(big.Int).SetBytes(k)
+	c := ecc.GetPublicKeyCompressed(k)
+	if c[0] == 3 {
+		d.Sub(eccN, d)
+	}
+	for {
+		kn := r.eccScalar(0)
+		rc := ecc.GetPublicKeyCompressed(kn)
+		if rc[0] != 3 {
+			continue
+		}
+		e := new(big.Int).SetBytes(eccTagged("BIP0340/challenge", rc[1:], c[1:], m))
+		e.Mod(e, eccN)
+		sv := new(big.Int).Mul(e, d)
+		sv.Add(sv, new(big.Int).SetBytes(kn)).Mod(sv, eccN)
+		return append(append([]byte{}, rc[1:]...), eccB32(sv)...)
+	}
 }
 
 func runC05(r *Runner) string {
@@ -899,7 +946,7 @@ func runC05(r *Runner) string {
 	}
 
 	// ---- ECDSA -------------------------------------------------------------------------------
-	nTriples := r.N(14, 400)
+	nTriples := r.N(10, 150)
 	for i := 0; i < nTriples; i++ {
 		k := r.eccScalar(i)
 		if i < len(eccEdgeScalars) {
@@ -914,8 +961,10 @@ func runC05(r *Runner) string {
 		}
 		// the documented high-S twin
 		r.eccVerify(pub, h, rr, new(big.Int).Sub(eccN, ss), "ecdsa-highS", true)
+		// with z ≡ 0 (mod n) a signature is valid for P and for −P alike (u1 = 0, R' = −R has the same x)
+		zZero := new(big.Int).Mod(new(big.Int).SetBytes(h), eccN).Sign() == 0
 		// x-only spelling of the key (accepted by DeserializePoint: even-y lift)
-		r.eccVerify(pubs[0][1:], h, rr, ss, "ecdsa-xonly-key", pubs[0][0] == 2)
+		r.eccVerify(pubs[0][1:], h, rr, ss, "ecdsa-xonly-key", pubs[0][0] == 2 || zZero)
 		// single-bit mutations of each component (sampled in quick, all 256 per component in thorough on a subset)
 		nb := r.N(5, 24)
 		for j := 0; j < nb; j++ {
@@ -945,8 +994,8 @@ func runC05(r *Runner) string {
 			r.eccVerify(append([]byte{pre}, x...), h, rr, ss, "ecdsa-key-prefix", false)
 			r.eccVerify(append([]byte{pre}, pubs[1][1:]...), h, rr, ss, "ecdsa-key-prefix", false)
 		}
-		r.eccVerify(append([]byte{pubs[0][0] ^ 1}, x...), h, rr, ss, "ecdsa-key-other-root", false)
-		r.eccVerify(append(append([]byte{4}, x...), eccB32(new(big.Int).Sub(eccP, new(big.Int).SetBytes(y)))...), h, rr, ss, "ecdsa-key-other-root", false)
+		r.eccVerify(append([]byte{pubs[0][0] ^ 1}, x...), h, rr, ss, "ecdsa-key-other-root", zZero)
+		r.eccVerify(append(append([]byte{4}, x...), eccB32(new(big.Int).Sub(eccP, new(big.Int).SetBytes(y)))...), h, rr, ss, "ecdsa-key-other-root", zZero)
 		r.eccVerify(pubs[0][:32], h, rr, ss, "ecdsa-key-trunc", false)
 		r.eccVerify(append(append([]byte{}, pubs[1]...), 0), h, rr, ss, "ecdsa-key-ext", false)
 		if xp := new(big.Int).Add(new(big.Int).SetBytes(x), eccP); xp.BitLen() <= 256 {
@@ -977,7 +1026,7 @@ func runC05(r *Runner) string {
 	}
 
 	// ---- Schnorr -----------------------------------------------------------------------------
-	nS := r.N(14, 400)
+	nS := r.N(10, 150)
 	for i := 0; i < nS; i++ {
 		k := r.eccScalar(i)
 		if i < len(eccEdgeScalars) {
@@ -1036,12 +1085,14 @@ func runC05(r *Runner) string {
 			}
 		}
 		r.eccSchnorrVerify(ecc.GetPublicKeySchnorr(r.eccScalar(i+1)), m, sig, "schnorr-other-key", false)
+		// a signature made with the private key but with an odd-y nonce point
+		r.eccSchnorrVerify(pub, m, r.eccSchnorrOddR(k, m), "schnorr-odd-R", false)
 	}
 
 	return "valid triples: keys over all scalar classes and the edge scalars {1,2,3,n-1,n-2,n-3,(n-1)/2,(n+1)/2}, digests uniform / all-zero / all-ones / >= n, signatures made by the library; " +
 		"for each triple: both key encodings, the x-only spelling, the high-S twin, single-bit mutations (sampled) and single-byte mutations of r, s, message and key, " +
 		"substituted scalars {0,1,n-1,n,n+1,p-1,p,2^256-1} for r, s (and the Schnorr key), r+n / s+n / r+p, hybrid and invalid key prefixes, the other root, truncated / extended keys, x+p, every key length 0..70, " +
-		"algebraically forged signatures for the degenerate keys 02/03/04/x-only 00..00 (r = x((z/s)G) mod n; x(sG)||s) and the same under a real key, signatures of other keys; every case is asked of the model (ecdsa.verify / schnorr.verify) and of the reference verifiers (.spec = Spec/ECC.lean and Prim agree); " +
+		"Schnorr signatures made with the key but an odd-y nonce point, algebraically forged signatures for the degenerate keys 02/03/04/x-only 00..00 (r = x((z/s)G) mod n; x(sG)||s) and the same under a real key, signatures of other keys; every case is asked of the model (ecdsa.verify / schnorr.verify) and of the reference verifiers (.spec = Spec/ECC.lean and Prim agree); " +
 		"non-trivial = valid triple, or a mutated triple that the reference rejects; distinct = hash of the request line"
 }
 
@@ -1049,7 +1100,7 @@ func runC05(r *Runner) string {
 // C04 (ecc part; the transaction-signing helpers are in signer.go)
 
 func runC04(r *Runner) string {
-	nSign := r.N(220, 5000)
+	nSign := r.N(360, 5000)
 	for i := 0; i < nSign; i++ {
 		k := r.eccScalar(i)
 		if i < len(eccEdgeScalars) {
@@ -1057,6 +1108,9 @@ func runC04(r *Runner) string {
 		}
 		h := r.eccDigest(i / 2)
 		r.Do("ecdsa.sign", []string{hx(k), hx(h)}, "ecdsa-sign", true, "key class "+strconv.Itoa(i%6))
+		if i%4 == 0 { // the same against Prim.ecdsaSign directly (no model code in between)
+			r.Do("ecdsa.sign.ref", []string{hx(k), hx(h)}, "ecdsa-sign-ref", false, "")
+		}
 	}
 	// every edge scalar with every special digest
 	for _, k := range eccEdgeScalars {
@@ -1064,7 +1118,7 @@ func runC04(r *Runner) string {
 			r.Do("ecdsa.sign", []string{hx(k), hx(r.eccDigest(c))}, "ecdsa-sign-edge", true, "edge")
 		}
 	}
-	nSch := r.N(200, 5000)
+	nSch := r.N(360, 5000)
 	for i := 0; i < nSch; i++ {
 		k := r.eccScalar(i)
 		if i < len(eccEdgeScalars) {
@@ -1078,7 +1132,7 @@ func runC04(r *Runner) string {
 		}
 	}
 	hashTypes := []uint32{1, 2, 3, 0x81, 0x82, 0x83}
-	nEnc := r.N(150, 4000)
+	nEnc := r.N(240, 4000)
 	for i := 0; i < nEnc; i++ {
 		k := r.eccScalar(i)
 		ht := hashTypes[i%6]
